@@ -1,4 +1,4 @@
-import Tahoe.Storage.ExpireLemmas
+import Tahoe.Storage.GcCycleLemmas
 /-!
 # C26 - Garbage collection deletes exactly the expired shares
 
@@ -14,7 +14,8 @@ configuration path; age mode as repaired by `fixes/C26-age-mode.diff`, now in /r
 | "with it enabled, a share is deleted ONLY IF every lease on it is expired under the configured policy (age: renewal + duration, or + override, in the past; cutoff: renewal before the cutoff date) …" | `deleted_iff_all_expired` (→), policy = `DocExpired`, tied to the code's comparison by `modeExpired_iff_doc` and to the 31-day constants by `lease_duration_is_31_days` |
 | "… and its share type is enabled for expiry" | `deleted_iff_all_expired`; switches → types: `sharetype_switches_select_types` |
 | "such a share is deleted …" (IF direction, one pass over its bucket) | `deleted_iff_all_expired` (←), bucket level `bucket_pass_deletes_exactly_expired` (every share file of the bucket is processed, nothing raised) |
-| "… within one crawl cycle" | composition: C27 `covers_at_least_once(_proc)` (the bucket is handed to `process_bucket` in every completed cycle) + `bucket_pass_deletes_exactly_expired`; the glue - `LeaseCheckingCrawler.process_bucket` IS the `process_bucket` the base class calls - is class inheritance: correspondence only (whole-cycle runs through `start_slice`) |
+| "… within one crawl cycle" (any slicing, kills at any call, restarts, changing listings) | `expired_share_deleted_within_one_cycle` on the composed machine `GcCycle.gcRun` (crawler schedule ∘ expirer on the share files; tied by the `gcrun` driver command against a real LeaseCheckingCrawler run over multi-slice schedules) |
+| "deleted ONLY IF …", at the level of whole schedules (many cycles, repeated passes after kills) | `valid_share_survives_every_schedule`; disabled: `disabled_never_deletes_any_schedule` |
 | cutoff date = midnight UTC of the configured day; duration strings | C48 (`parse_date`, `parse_duration`); here: the parsed values reach the crawler unchanged (`cutoff_and_override_reach_the_crawler`), time zones: correspondence + monitor only |
 | hypothesis of the full theorem: ≥ 1 lease, pairwise distinct cancel secrets (`WellFormedLeases`) | what the code does outside it: `shared_cancel_secret_counterexample`, `shared_cancel_secret_raises_counterexample`, `zero_lease_counterexample` (three open known findings) |
 | byte counters / histogram of the status page; on-disk rewriting of lease records by `cancel_lease` | not covered here (record layout: C29; `cancel_lease` is modelled as "remove every lease with that secret", tied by comparing the leases left on disk) |
@@ -114,6 +115,71 @@ example :
     (processBucket cfg 1700000000 shares).shares.map (fun r => r.2.removed) = [true, false, false] ∧
     (processBucket cfg 1700000000 shares).raised = false := by
   decide
+
+/-! ### Whole schedules: the crawler drives the expirer (`GcCycle.gcRun`) -/
+
+open Tahoe.Storage.Crawler Tahoe.Storage.GcCycle in
+/-- "…such a share is deleted within one crawl cycle."  For every schedule of the lease crawler
+    (time-slice interruptions anywhere, kills after any `process_bucket` call, restarts, changing
+    prefix listings, a clock per slice): once cycle `c` is finished, a share file `k` of a bucket `b`
+    that was listed throughout cycle `c`, whose type is enabled and whose leases are all expired under
+    the documented predicate at every clock value of the schedule, is gone.  (Shares everywhere
+    well-formed: ≥ 1 lease, distinct cancel secrets - otherwise see the three findings.) -/
+theorem expired_share_deleted_within_one_cycle (cfg : Config) (hon : cfg.enabled = true)
+    (np : Nat) (hnp : 2 ≤ np) (pf : Nat → Nat) (hmono : ∀ a b, a ≤ b → pf a ≤ pf b)
+    (gs : List GEvent) (hls : ListingsFollowPrefixes pf (gs.map (·.ev)))
+    (w0 : World) (hwf : AllWF w0)
+    (c p b k : Nat) (hp : p < np) (hpb : pf b = p)
+    (hpres : PresentThroughout np c p b init (gs.map (·.ev)))
+    (hdone : ∃ c', (gcRun cfg np init w0 gs).1.p.lcf = some c' ∧ c ≤ c')
+    (hexp : Doomed cfg b k (gs.map (·.now)) w0) :
+    Gone b k (gcRun cfg np init w0 gs).2.1 := by
+  obtain ⟨h1, h2⟩ := gcRun_crawler cfg np gs init w0
+  have hcov := run_cov pf hmono np hnp c p b hpb hp (gs.map (·.ev)) init [] hls wfC_init (wfP_init pf np)
+    (cov_init c p b) hpres
+  obtain ⟨c', hc', hle⟩ := hdone
+  rw [h1] at hc'
+  have hmem := hcov.done (by rw [hc']; simp only [nextCycle]; omega)
+  simp only [List.nil_append] at hmem
+  refine (gcRun_inv cfg b k (gs.map (·.now)) hon np gs init w0
+    (fun g hg => List.mem_map.2 ⟨g, hg, rfl⟩) hwf hexp).2.1 ⟨⟨c, p, b⟩, ?_, rfl⟩
+  rw [h2]; exact hmem
+
+open Tahoe.Storage.Crawler Tahoe.Storage.GcCycle in
+/-- "…deleted ONLY IF every lease is expired and the type is enabled", over whole schedules: a share
+    file that holds a lease which is unexpired at every clock value of the schedule, or whose type
+    is not enabled, is still there - with that lease - after any number of cycles, kills and
+    repeated passes (no hypothesis on the crawler schedule at all). -/
+theorem valid_share_survives_every_schedule (cfg : Config) (hon : cfg.enabled = true) (np : Nat)
+    (gs : List GEvent) (w0 : World) (hwf : AllWF w0) (b k : Nat) (ty : ShareType) (l0 : Lease)
+    (hkeep : typeEnabled cfg ty = false ∨ ∀ g ∈ gs, ¬ DocExpired cfg g.now l0)
+    (hin : Holds b k ty l0 w0) :
+    Holds b k ty l0 (gcRun cfg np init w0 gs).2.1 :=
+  gcRun_holds cfg hon np b k ty l0 gs init w0 hkeep hwf hin
+
+open Tahoe.Storage.Crawler Tahoe.Storage.GcCycle in
+/-- Non-vacuity (three prefixes, buckets 3 and 5 under prefix 1): a slice interrupted after bucket 3,
+    a slice killed after one call, a last slice.  Bucket 3's only share and share 1 of bucket 5 are
+    all-expired and go; share 0 of bucket 5 keeps exactly its valid lease; cycle 0 is finished. -/
+example :
+    let cfg : Config := { enabled := true, mode := .cutoff 1700000000, expImmutable := true, expMutable := true }
+    let w0 : World := fun b =>
+      if b = 3 then [(0, .immutable, [⟨1, 1600000000⟩])]
+      else if b = 5 then [(0, .mutable, [⟨1, 1600000000⟩, ⟨2, 1800000000⟩]), (1, .mutable, [⟨3, 1600000000⟩])]
+      else []
+    let gs : List GEvent :=
+      [⟨.slice exLs [false, true], 1700000100⟩, ⟨.killed exLs [] 1, 1700000200⟩, ⟨.slice exLs [], 1700000300⟩]
+    (gcRun cfg 3 init w0 gs).2.1 3 = [] ∧
+    (gcRun cfg 3 init w0 gs).2.1 5 = [(0, .mutable, [⟨2, 1800000000⟩])] ∧
+    (gcRun cfg 3 init w0 gs).1.p.lcf = some 0 ∧
+    (gcRun cfg 3 init w0 gs).2.2 = [⟨0,1,3⟩, ⟨0,1,5⟩, ⟨0,1,5⟩, ⟨0,2,9⟩] := by
+  decide
+
+open Tahoe.Storage.GcCycle in
+/-- With expiration disabled no schedule of the crawler changes any share file. -/
+theorem disabled_never_deletes_any_schedule (cfg : Config) (hoff : cfg.enabled = false) (np : Nat)
+    (gs : List GEvent) (w0 : World) : (gcRun cfg np Tahoe.Storage.Crawler.init w0 gs).2.1 = w0 :=
+  gcRun_disabled cfg hoff np gs _ w0
 
 /-! ### From `tahoe.cfg` to the crawler (`get_anonymous_storage_server`, `LeaseCheckingCrawler.__init__`) -/
 
